@@ -108,3 +108,89 @@ def exclude_known(lemma_id, prop, env):
             continue
         region = eval(f['region'], {'And': core.And, 'Or': core.Or, 'Not': core.Not}, dict(env))
         core.assume(core.Not(region))
+
+
+# ------------------------------------------------------------------ generic replay
+def _real_of(val):
+    """map an object that lives in an instrumented (sxm.*) module to its counterpart in the real package"""
+    import types
+    mod = getattr(val, '__module__', None)
+    if isinstance(val, types.ModuleType):
+        if val.__name__.startswith('sxm.'):
+            return real('mpgameserver.' + val.__name__.split('.', 1)[1])
+        return None
+    if isinstance(val, type) or isinstance(val, types.FunctionType):
+        if isinstance(mod, str) and mod.startswith('sxm.') and '.' not in getattr(val, '__qualname__', '.'):
+            rm = real('mpgameserver.' + mod.split('.', 1)[1])
+            return getattr(rm, val.__name__, None)
+        return None
+    cls = type(val)
+    cmod = getattr(cls, '__module__', '')
+    if isinstance(cmod, str) and cmod.startswith('sxm.') and hasattr(cls, '_value2name') and hasattr(val, 'value'):
+        rc = getattr(real('mpgameserver.' + cmod.split('.', 1)[1]), cls.__name__, None)
+        if rc is not None:
+            try:
+                return getattr(rc, cls._value2name[val.value])
+            except Exception:
+                return None
+    return None
+
+
+def _swap(modules):
+    saved = []
+    for M in modules:
+        for name, val in list(vars(M).items()):
+            if name.startswith('__'):
+                continue
+            new = None
+            if isinstance(val, (list, tuple)) and val and all(_real_of(x) is not None for x in val):
+                new = type(val)(_real_of(x) for x in val)
+            else:
+                try:
+                    new = _real_of(val)
+                except Exception:
+                    new = None
+            if new is not None:
+                saved.append((M, name, val))
+                setattr(M, name, new)
+    return saved
+
+
+def generic_replay(func, modules):
+    """replay driver that re-executes the *same harness* concretely against the uninstrumented package:
+    the sx API hands out the recorded model values, module references are swapped to the real modules,
+    the package's clock is the harness clock.  Reproduced <=> some obligation fails in that run."""
+    def replay(cfg, model):
+        import time as _time
+        from sx import core
+        from sx.models import env_m
+        saved = _swap(modules)
+        eng = core.ReplayEngine(model)
+        prev = core.Engine.cur
+        core.Engine.cur = eng
+        real_time = _time.time
+        _time.time = lambda: env_m.clock()()
+        rc = real('mpgameserver.connection')
+        try:
+            try:
+                func(**cfg)
+            except core.ReplayAbort as x:
+                return False, 'replay aborted: %s' % x
+            except core.SxControl as x:
+                return False, 'replay left the concrete fragment: %r' % (x,)
+            except Exception as x:
+                import traceback
+                return False, 'harness raised in replay: %s' % traceback.format_exc()[-600:]
+        finally:
+            _time.time = real_time
+            core.Engine.cur = prev
+            for M, name, val in saved:
+                setattr(M, name, val)
+            try:
+                rc.Packet.setMTU(1500)
+            except Exception:
+                pass
+        if eng.failures:
+            return True, 'concrete re-execution on the real package fails: %s' % '; '.join(sorted(set(eng.failures))[:3])
+        return False, 'all %d obligations hold in the concrete re-execution' % eng.checks
+    return replay
